@@ -69,6 +69,16 @@ pub fn m_histories(sizes: &[usize]) -> Vec<Vec<String>> {
                     h.push(format!("Ins({})", key(i)));
                 }
                 h.push("Clear()".into());
+                // second epoch on the cleared collection: refill completely (clear after growth must behave
+                // like a new collection), remove a third, clear again, insert three
+                for &i in del.iter() {
+                    h.push(format!("Ins({})", key(i)));
+                }
+                for &i in ins.iter().step_by(3) {
+                    h.push(format!("Del({})", key(i)));
+                }
+                h.push("Clear()".into());
+                h.push("Clear()".into());
                 for &i in ins.iter().take(3) {
                     h.push(format!("Ins({})", key(i)));
                 }
@@ -106,11 +116,35 @@ pub fn k_histories(sizes: &[usize], tmax: usize) -> Vec<Vec<String>> {
                         for &i in ins.iter() {
                             if exp(i) == t && re < 3 {
                                 h.push(format!("GET({})", key(i)));
-                                h.push(format!("Ins({},{})", key(i), tmax + 1));
+                                h.push(format!("Ins({},{})", key(i), tmax));
                                 re += 1;
                             }
                         }
                     }
+                }
+                // everything has expired now; touch every key so that the tree empties itself lazily,
+                // then clear (of an already empty tree), restart the clock and run a second epoch
+                for i in 0..n {
+                    h.push(format!("GET({})", key(i)));
+                }
+                h.push("Clear()".into());
+                h.push("ClearRestart()".into());
+                for i in 0..n {
+                    h.push(format!("GET({})", key(i)));
+                }
+                for &i in ins.iter().rev() {
+                    h.push(format!("Ins({},{})", key(i), 1 + (i + pat) % 2));
+                }
+                h.push("FLE(0)".into());
+                h.push(format!("FLE({})", 2 * n));
+                h.push("Clear()".into());
+                for &i in ins.iter() {
+                    h.push(format!("Ins({},{})", key(i), 2 + (i + pat) % 3));
+                }
+                h.push("Tick()".into());
+                h.push("Tick()".into());
+                for i in (0..n).step_by(2) {
+                    h.push(format!("GET({})", key(i)));
                 }
                 out.push(h);
             }
